@@ -13,7 +13,7 @@ import (
 	"strconv"
 
 	"verifmc/engine"
-	_ "verifmc/props"
+	"verifmc/props"
 )
 
 func usage() {
@@ -34,6 +34,16 @@ func main() {
 	case a[0] == "--list":
 		for _, id := range engine.IDs() {
 			fmt.Println(id)
+		}
+	case a[0] == "--race-scenario":
+		// (internal) run one free-running scenario inside the -race build
+		if len(a) < 4 {
+			usage()
+		}
+		g, _ := strconv.Atoi(a[2])
+		r, _ := strconv.Atoi(a[3])
+		if msg := props.RunRaceScenario(a[1], g, r); msg != "" {
+			fmt.Println("RESULT-MISMATCH " + msg)
 		}
 	case a[0] == "--worker":
 		if len(a) < 4 {
